@@ -12,6 +12,42 @@ LEVEL = "model_checking"
 BAD = 'def bad():\n    return "xyz"\n<start> ::= <k> <v>\n<k> ::= "k"\n<v> ::= <d>+ := bad()\n<d> ::= "1" | "2"\n'
 
 
+# ---- trees obtained from the API parse and handed back as the initial population of a later search (reloading a corpus):
+# the spec has generators but NO constraints of its own; the later search gets extra constraints that point into a generated field
+SEEDED = evo.GEN_PRELUDE + '<start> ::= <k> "-" <c> "-" <tail>\n<k> ::= "k" | "j"\n<c> ::= <d>+ := const()\n<tail> ::= <d>{1,2}\n<d> ::= "1" | "2" | "3"\n'
+
+
+def seeded_work(policy):
+    from mc.explore import Chooser, Horizon
+    from mc.fd import snap
+    spec = build(SEEDED)
+    out = {"viol": [], "emitted": 0, "population": 0}
+    ch = Chooser([], max_points=6000, policy=policy)
+    emitted = []
+    try:
+        with random_seam(ch), max_repetitions(3):
+            spec.grammar.fuzz("<start>", 10)                      # the generator runs once: its value is on the log
+            seeds = [t for w in ("k-12-3", "j-12-21") for t in spec.parse(w)]
+            spec.fuzz(initial_population=seeds, extra_constraints=['str(<c>.<d>) != "1"', 'str(<tail>) != "3"'], desired_solutions=2, max_generations=12,
+                      population_size=6, random_seed=0, solution_callback=lambda t, i: emitted.append(t))
+    except Horizon:
+        pass
+    except Exception as e:
+        out["error"] = type(e).__name__
+    log = evo.get_log(spec)
+    e = {"gens": {"<c>": ("const", lambda a: "12")}}
+    pop = list(getattr(spec.fandango, "population", [])) if getattr(spec, "fandango", None) is not None else []
+    out["emitted"], out["population"] = len(emitted), len(pop)
+    for label, trees in (("emitted", emitted), ("population", pop)):
+        for t in trees:
+            why = evo.judge_generators(e, t, log)
+            if why:
+                out["viol"].append({"kind": "generated_field_not_generator_output", "where": label, "policy": policy, "why": why, "tree": str(t)[:60],
+                                    "after": "Fandango.parse() results used as initial population", "sig": f"parsed_seeds:{label}:{why[:40]}"})
+                break
+    return out
+
+
 def run(ctx: Ctx) -> None:
     names = [n for n, e in evo.cat().items() if e.get("gens")]
     b = evo.closure_explore(ctx, names, {"C16"}, depth=2 if ctx.quick else 3, frontier_cap=16 if ctx.quick else 40, run_cap=200 if ctx.quick else 600)
@@ -36,7 +72,13 @@ def run(ctx: Ctx) -> None:
         bad_runs += 1
         if res[0] != "raises":
             ctx.violation({"kind": "ill_fitting_generator_value_accepted", "result": res[1], "choices": choices, "sig": "ill_fitting_generator_value_accepted"})
+    from mc.common import pmap_tagged
+    seeded = pmap_tagged(seeded_work, ["zero", "rot", "last", "trickle"], chunk=1)
+    for r in seeded:
+        for v in r["viol"]:
+            ctx.violation(v)
     ctx.coverage.update(
+        parsed_seed_runs=[{k: v for k, v in r.items() if k != "viol"} for r in seeded],
         states=b["trees"] + c["executions"] + bad_runs, transitions=b["transitions"] + b["executions"] + c["executions"],
         traces_validated_against_impl=b["executions"] + c["executions"] + bad_runs,
         samples=[{"engine": "closure", "spec": "generators", "builder": ["crossover", [1, 0], ["fuzz", [0]], ["fuzz", [1]]]}],
